@@ -1196,8 +1196,11 @@ def rule_normform(ctx) -> RuleResult:
                         cur = a
                     if a is f.node:
                         break
-                raw = [lf for lf in leaves if P in names_in(lf) and not (isinstance(lf, ast.Call) and norm(lf.func) == "isinstance")]
-                normed = [lf for lf in leaves if N in names_in(lf)]
+                # a leaf may test a local flag (wants = N.field is True): follow locals back to the raw parameter / the normalised local
+                def deps(lf):
+                    return names_in(lf) | _dep_names(f, lf)
+                normed = [lf for lf in leaves if N in deps(lf)]
+                raw = [lf for lf in leaves if P in deps(lf) and N not in deps(lf) and not (isinstance(lf, ast.Call) and norm(lf.func) == "isinstance")]
                 if not raw and not normed:
                     continue
                 res.inst(f"{q}: refusal '{norm(st.test)[:50]}' keyed on the normalised '{N}': {bool(normed) and not raw}", f"{q}|{st.lineno}")
